@@ -52,6 +52,11 @@ pub struct Case {
     pub wscript: Vec<crate::wire::WStep>,
     #[serde(default)]
     pub wcycles: u16,
+    /// heartbeats are on (1 s) and the transport stalls for 1.3 s in the middle of a frame right
+    /// after the publishes were issued: the heartbeat timer fires while a backlog whose head is
+    /// inside a frame is waiting (costly, generated for about one session in a hundred)
+    #[serde(default)]
+    pub hb_stall: bool,
 }
 
 pub fn negotiated(a: u32, b: u32) -> u32 {
@@ -129,8 +134,8 @@ fn strat(_t: Tier) -> BoxedStrategy<Case> {
     // half of the cases run on an unrestricted transport, the others under a cycled write script
     // that is long enough to be still active when the connection is closed
     let script = prop_oneof![1 => Just((Vec::new(), 0u16)), 1 => (vec(wstep, 1..40), prop::sample::select(vec![1u16, 10, 200, 2000]))];
-    (fm(), fm(), 1u8..=3, vec(p, 1..=6), any::<u64>(), script)
-        .prop_map(|(client_frame_max, server_frame_max, channels, pubs, salt, (wscript, wcycles))| Case {
+    (fm(), fm(), 1u8..=3, vec(p, 1..=6), any::<u64>(), script, prop::bool::weighted(0.01))
+        .prop_map(|(client_frame_max, server_frame_max, channels, pubs, salt, (wscript, wcycles), hb_stall)| Case {
             client_frame_max,
             server_frame_max,
             channels,
@@ -138,17 +143,21 @@ fn strat(_t: Tier) -> BoxedStrategy<Case> {
             salt,
             wscript,
             wcycles,
+            hb_stall,
         })
         .boxed()
 }
 
 pub fn exec(c: &Case) -> Outcome {
+    let hb = if c.hb_stall { 1 } else { 0 };
     let ccfg = ClientCfg {
         frame_max: c.client_frame_max,
+        heartbeat: hb,
         ..Default::default()
     };
     let scfg = ServerCfg {
         frame_max: c.server_frame_max,
+        heartbeat: hb,
         ..Default::default()
     };
     let fmax = negotiated(c.client_frame_max, c.server_frame_max);
@@ -158,8 +167,10 @@ pub fn exec(c: &Case) -> Outcome {
         fmax as usize - 8
     };
     let mut wscript = Vec::new();
-    for _ in 0..c.wcycles.max(1) {
-        wscript.extend(c.wscript.iter().copied());
+    if !c.hb_stall {
+        for _ in 0..c.wcycles.max(1) {
+            wscript.extend(c.wscript.iter().copied());
+        }
     }
     let mut sess = open_session(&ccfg, scfg, wscript, AutoBroker::new(c.salt));
     let mut conn = match sess.conn.take() {
@@ -174,6 +185,7 @@ pub fn exec(c: &Case) -> Outcome {
     };
     let nch = c.channels.max(1) as usize;
     let case = c.clone();
+    let wire_for_stall = sess.wire.clone();
     // one thread owns the connection and all channels: publishes are issued in case order
     let res = timed(CALL_TIMEOUT * 2, "avh-c02", move || -> Result<(Vec<(u16, PublishExpect, bool, String)>, amiquip::Connection), String> {
         let mut chans = Vec::new();
@@ -181,6 +193,10 @@ pub fn exec(c: &Case) -> Outcome {
             chans.push(conn.open_channel(None).map_err(|e| format!("open_channel: {:?}", e))?);
         }
         let mut log = Vec::new();
+        if case.hb_stall {
+            // a few bytes of budget: the first publish is cut by a short write, the rest queues up
+            wire_for_stall.set_budget(Some(5 + (case.salt % 60) as usize));
+        }
         for (i, pb) in case.pubs.iter().enumerate() {
             let ch = &chans[pb.ch as usize % nch];
             let len = resolve_len(&pb.len, p);
@@ -225,6 +241,16 @@ pub fn exec(c: &Case) -> Outcome {
                 declared,
                 other,
             ));
+        }
+        if case.hb_stall {
+            // the client's heartbeat timer (1 s) fires during the stall; the server keeps the
+            // client's receive timer quiet with heartbeats of its own
+            for _ in 0..3 {
+                wire_for_stall.push(crate::codec::encode(&AMQPFrame::Heartbeat(0)));
+                std::thread::sleep(std::time::Duration::from_millis(450));
+            }
+            wire_for_stall.set_budget(None);
+            wire_for_stall.grant(0);
         }
         // dropping the channels closes them (one Channel.Close each, answered by the broker)
         drop(chans);
@@ -341,6 +367,9 @@ pub fn exec(c: &Case) -> Outcome {
                 format!("channel {} carries {} frames, {} accounted for; next: {:?}", ch, frames.len(), used, frames.get(used).map(|(_, f)| crate::oracle::brief(f))),
             );
         }
+    }
+    if c.hb_stall {
+        labels.push("heartbeat-timer-fires-on-a-mid-frame-backlog".to_string());
     }
     if !c.wscript.is_empty() {
         labels.push("fragmenting-transport".to_string());
@@ -618,7 +647,7 @@ fn sstrat(_t: Tier) -> BoxedStrategy<SCase> {
 pub fn parts() -> Vec<Box<dyn PartDyn>> {
     vec![Box::new(Part::<Case> {
         name: "e2e",
-        rule: "sessions on the mock transport: (client,server) frame_max from {0,4096,4097,5000,8192,131072}^2, 1-3 channels, 1-6 publishes (Channel::basic_publish or Exchange::publish, arbitrary short-string exchange/routing key, all flag combinations, generated properties, body length from {0,1,small,k*p-1,k*p,k*p+1,uniform<=4p}); oracle: decoded wire per channel = Publish{fields}, one header{class 60, weight 0, size, props}, non-empty body frames <= frame_max concatenating to the body, contiguous and in publish order; non-trivial = empty body, multi-frame body or boundary length; distinct by case hash",
+        rule: "sessions on the mock transport: (client,server) frame_max from {0,4096,4097,5000,8192,131072}^2, 1-3 channels, 1-6 publishes (Channel::basic_publish or Exchange::publish, arbitrary short-string exchange/routing key, all flag combinations, generated properties, body length from {0,1,small,k*p-1,k*p,k*p+1,uniform<=4p}), about one session in a hundred with a 1 s heartbeat and the transport stalled for 1.3 s inside the first publish's frame; oracle: decoded wire per channel = Publish{fields}, one header{class 60, weight 0, size, props}, non-empty body frames <= frame_max concatenating to the body, contiguous and in publish order; non-trivial = empty body, multi-frame body or boundary length; distinct by case hash",
         cases: |t| t.pick(4000, 60_000),
         threads: 16,
         strategy: strat,
